@@ -10,6 +10,7 @@ import ShVerif.Model.C29
                            unset:<name>, readonly:<name>:<val>
     specenv <rw> <tok>…    the specification for the same tokens: the root Environ receives no Set
     sb <cap> <part>…       FieldsSeq's copy + SplitBraces on a word; parts l<hex> | o<tag>
+    bs <cap> <part>…       the same followed by bracesSeqRec: the words handed to expandWord
     alias <cap> <args> <name=words:blank>…   the alias loop of Runner.cmd
     hdoc <part>…           the <<- line splitter; parts p<tag> | l<tag>:<seg>;<seg>…
     selftest               the constant answer of the harness's detector self-test
@@ -215,6 +216,18 @@ def sbRun (cap : Nat) (parts : List Part) : String :=
     let same := h1.words[0]? = h0.words[0]? && h1.parr[0]? = h0.parr[0]?
     b01 res ++ " (" ++ ",".intercalate (renderParts h1 64 (partsOf h1 cw)) ++ ") orig=" ++ (if same then "same" else "changed")
 
+def bsRun (cap : Nat) (parts : List Part) : String :=
+  let n := parts.length
+  let c := max cap n
+  let arr0 := padTo parts c
+  let h0 : Heap := { words := [{ arr := 0, off := 0, len := n, cap := c, isNil := n = 0 && c = 0 }], parr := [arr0] }
+  match fieldsSeqWords (fun _ _ need => need) 64 h0 0 with
+  | none => "panic"
+  | some (h1, ws) =>
+    let same := h1.words[0]? = h0.words[0]? && h1.parr[0]? = h0.parr[0]?
+    " ".intercalate (ws.map fun w => "(" ++ ",".intercalate (renderParts h1 64 (partsOf h1 w)) ++ ")") ++
+      " orig=" ++ (if same then "same" else "changed")
+
 /-! ### alias loop, here-document splitter -/
 
 def parseIds (s : String) : Option (List Nat) :=
@@ -283,8 +296,6 @@ def handle (args : List String) : String :=
     -- `B:` tokens come first; then Reset builds the first overlay
     let bs := toks.takeWhile (·.startsWith "B:")
     let rest := toks.dropWhile (·.startsWith "B:")
-    let pre := runToks (rw = "1") { st := {} } [] bs
-    if pre = "bad-op" then "bad-op" else
     let base : List (Bytes × Var) := bs.filterMap fun t =>
       match t.splitOn ":" with
       | ["B", n, fl, k, v] => do pure ((← ofHex n), (← parseVar fl k v))
@@ -294,6 +305,10 @@ def handle (args : List String) : String :=
   | "sb" :: cap :: parts =>
     match cap.toNat?, parts.mapM parsePart with
     | some c, some ps => sbRun c ps
+    | _, _ => "bad-op"
+  | "bs" :: cap :: parts =>
+    match cap.toNat?, parts.mapM parsePart with
+    | some c, some ps => bsRun c ps
     | _, _ => "bad-op"
   | "alias" :: cap :: a :: entries =>
     match cap.toNat?, parseIds a, entries.mapM parseAliasEntry with
